@@ -25,14 +25,10 @@ MAXDEN_CP = 2000
 MAXM = 500          # common denominator of a returned point (keeps TLC's 32-bit products in range)
 
 MATCHERS = {
-    # segment_set raises IndexError on every input (dl[i, i + 1:] on a 1-d array)
-    "segment_set_raises": lambda r: r["clause"] == "SegmentSetDist" and r["fn"] == "segment_set" and not r["ok"]
-    and "IndexError" in r.get("err", ""),
-    # in-plane segment entering the polygon (start outside, end strictly inside): distance 0 but the start point is returned
-    "segpoly_entering_returns_start": lambda r: r["clause"] == "SegPolyClosestEntering" and r["fn"] == "segments_polygon"
-    and r["ok"] and all(
-        [Fraction(n, cp["m"]) for n in cp["n"]] == [Fraction(x) for x in se[0]]
-        for cp, se in zip(r["out"]["cp"], r["in"]["segs"])),
+    # segment_set raises IndexError on every input (dl[i, i + 1:] on a 1-d array); a segment_set that returns
+    # (wrong) values, or raises anything else, is NOT matched
+    "segment_set_raises": lambda r: r["clause"] == "SegmentSetDist" and r["fn"] == "segment_set" and r["ok"] is False
+    and r.get("err", "").startswith("IndexError: too many indices for array"),
 }
 
 
